@@ -274,10 +274,14 @@ def rules(ctx):
                      "reduction table entry %s does not record the gadget's pair/ancilla" % src(n))
         # key rebuild: inline in the loop body, or extracted into a helper `K = helper(K, x, y, z)`
         site = None
+        # the accumulator is K itself or a local copied out by a later `K = A` (an inlined helper's result)
+        accs = [K] + [src(n.value) for n in W.body if isinstance(n, ast.Assign) and len(n.targets) == 1
+                      and src(n.targets[0]) == K and isinstance(n.value, ast.Name)]
         for n in W.body:
-            if isinstance(n, ast.For) and K and any(
-                    isinstance(m, ast.AugAssign) and src(m.target) == K for m in ast.walk(n)):
-                site = ('inline', fn, W.body, K, x, y, z)
+            for A in accs:
+                if isinstance(n, ast.For) and A and site is None and any(
+                        isinstance(m, ast.AugAssign) and src(m.target) == A for m in ast.walk(n)):
+                    site = ('inline', fn, W.body, A, x, y, z)
         if site is None:
             for n in W.body:
                 if isinstance(n, ast.Assign) and len(n.targets) == 1 and src(n.targets[0]) == K and isinstance(n.value, ast.Call):
